@@ -67,7 +67,7 @@ pub trait Backend {
     type U;
     type S;
     type W;
-    type Sub;
+    type Sub: Send + 'static;
 
     fn u_new(v: OV) -> Self::U;
     fn u_subscribe(u: &Self::U) -> Self::Sub;
